@@ -2,6 +2,7 @@ import IrefVerif.Lemmas.Utf8
 import IrefVerif.Lemmas.Sub
 import IrefVerif.Lemmas.AuthValid
 import IrefVerif.Lemmas.ValidWF
+import IrefVerif.Lemmas.Utf8Ranges
 
 /-!
 # IRIs at the octet level: UTF-8 is transparent to the structure
@@ -11,9 +12,12 @@ automaton, but every scanner, setter and comparison works on the octets.  This f
 the code-point grammar to octets:
 
 * `utf8Encode_decode`: a successful strict decode is inverted by `utf8Encode`;
-* `encRE r`: `r` with every class cut down to its ASCII part plus, if it had anything above,
-  "one or more octets ≥ 0x80" (an over-approximation, which is all the structure lemmas need);
-* `matches_enc`: `Matches r w → Matches (encRE r) (utf8Encode w)`;
+* `encRE r`: `r` with every class replaced by its ASCII part plus the exact UTF-8 encodings of
+  the scalars above (`Lemmas/Utf8Ranges.lean`: `encHi`);
+* `matches_enc`: `Matches r w → Matches (encRE r) (utf8Encode w)`, and conversely `enc_complete`:
+  every octet string matching `encRE r` is the UTF-8 encoding of a scalar word matching `r`
+  (`utf8Decode_encode`: which the strict decoder reads back), so `iri_octets_exact`: the octet
+  grammar `iriGB` is *exactly* the valid IRI references as the crate stores them;
 * `iriGB = encG iriG` satisfies the same side conditions (`Ok`, `OkAuth`) as `uriG`/`iriG`, so
   every generic structure theorem (`split_valid`, `authority_parts`, …) applies to the *octets*
   of a valid IRI (`iri_octets_valid`).
@@ -71,50 +75,6 @@ theorem utf8Encode_decode (bytes w : List Nat) (h : utf8Decode? bytes = some w) 
       List.cons.injEq, and_true]
     exact ⟨by omega, by omega, by omega, by omega⟩
 
-/-! ## the octets of a non-ASCII scalar are all ≥ 0x80 -/
-
-def hiB : RE := cls [(0x80, 0xFF)]
-def hiSeq : RE := seq hiB (star hiB)
-
-theorem matches_hiB {b : Nat} (h1 : 0x80 ≤ b) (h2 : b ≤ 0xFF) : Matches hiB [b] := by
-  apply Matches.cls
-  simp [inCls, Nat.ble_eq, h1, h2]
-
-theorem hiSeq_of_all (l : List Nat) (hne : l ≠ []) (h : ∀ b ∈ l, 0x80 ≤ b ∧ b ≤ 0xFF) : Matches hiSeq l := by
-  cases l with
-  | nil => exact absurd rfl hne
-  | cons b l =>
-    have hb := h b List.mem_cons_self
-    have hstar : ∀ m : List Nat, (∀ x ∈ m, 0x80 ≤ x ∧ x ≤ 0xFF) → Matches (star hiB) m := by
-      intro m
-      induction m with
-      | nil => intro _; exact .starNil
-      | cons x m ih =>
-        intro hm
-        have hx := hm x List.mem_cons_self
-        exact Matches.starCons (u := [x]) (matches_hiB hx.1 hx.2) (ih (fun y hy => hm y (List.mem_cons_of_mem _ hy)))
-    exact Matches.seq (u := [b]) (matches_hiB hb.1 hb.2) (hstar l (fun y hy => h y (List.mem_cons_of_mem _ hy)))
-
-theorem encodeOne_hi (c : Nat) (h1 : 0x80 ≤ c) (h2 : c < 0x110000) :
-    utf8EncodeOne c ≠ [] ∧ ∀ b ∈ utf8EncodeOne c, 0x80 ≤ b ∧ b ≤ 0xFF := by
-  unfold utf8EncodeOne
-  have e1 : ¬ (c < 128) := by omega
-  simp only [e1, if_false]
-  split
-  · refine ⟨by simp, ?_⟩
-    intro b hb
-    simp only [List.mem_cons, List.not_mem_nil, or_false] at hb
-    rcases hb with rfl | rfl <;> omega
-  · split
-    · refine ⟨by simp, ?_⟩
-      intro b hb
-      simp only [List.mem_cons, List.not_mem_nil, or_false] at hb
-      rcases hb with rfl | rfl | rfl <;> omega
-    · refine ⟨by simp, ?_⟩
-      intro b hb
-      simp only [List.mem_cons, List.not_mem_nil, or_false] at hb
-      rcases hb with rfl | rfl | rfl | rfl <;> omega
-
 /-! ## transporting an expression -/
 
 def clip : Ranges → Ranges
@@ -139,7 +99,7 @@ theorem inCls_clip {rs : Ranges} {c : Nat} (h : inCls rs c = true) (hc : c < 0x8
 def encRE : RE → RE
   | empty => empty
   | eps => eps
-  | cls rs => if maxR rs < 0x80 then cls rs else alt (cls (clip rs)) hiSeq
+  | cls rs => if maxR rs < 0x80 then cls rs else alt (cls (clip rs)) (encHi rs)
   | seq a b => seq (encRE a) (encRE b)
   | alt a b => alt (encRE a) (encRE b)
   | star a => star (encRE a)
@@ -174,8 +134,7 @@ theorem matches_enc {r : RE} {w : List Nat} (h : Matches r w) (hs : ∀ c ∈ w,
     · by_cases hlt : c < 0x80
       · simp only [utf8EncodeOne, hlt, if_true]
         exact .altL (.cls (inCls_clip hc hlt))
-      · have := encodeOne_hi c (by omega) hc2
-        exact .altR (hiSeq_of_all _ this.1 this.2)
+      · exact .altR ((encHi_sem rs _).mpr ⟨c, hc, by omega, by omega, rfl⟩)
   | seq _ _ ih1 ih2 =>
     rw [utf8Encode_append]
     exact .seq (ih1 (fun c hc => hs c (List.mem_append_left _ hc))) (ih2 (fun c hc => hs c (List.mem_append_right _ hc)))
@@ -185,6 +144,188 @@ theorem matches_enc {r : RE} {w : List Nat} (h : Matches r w) (hs : ∀ c ∈ w,
   | starCons _ _ ih1 ih2 =>
     rw [utf8Encode_append]
     exact .starCons (ih1 (fun c hc => hs c (List.mem_append_left _ hc))) (ih2 (fun c hc => hs c (List.mem_append_right _ hc)))
+
+/-! ## the converse: every match of `encRE r` is the encoding of a match of `r` -/
+
+theorem clip_sound {rs : Ranges} {c : Nat} (h : inCls (clip rs) c = true) : inCls rs c = true ∧ c < 0x80 := by
+  induction rs with
+  | nil => simp [clip, inCls] at h
+  | cons p rs ih =>
+    simp only [clip] at h
+    split at h
+    · simp only [inCls, Bool.or_eq_true, Bool.and_eq_true, Nat.ble_eq] at h ⊢
+      rcases h with ⟨h1, h2⟩ | h
+      · exact ⟨.inl ⟨h1, by omega⟩, by omega⟩
+      · exact ⟨.inr (ih h).1, (ih h).2⟩
+    · simp only [inCls, Bool.or_eq_true]
+      exact ⟨.inr (ih h).1, (ih h).2⟩
+
+/-- every range of the class holds scalar values only -/
+def scalarRanges (rs : Ranges) : Bool :=
+  rs.all fun p => decide (p.2 < 0xD800) || (decide (0xE000 ≤ p.1) && decide (p.2 < 0x110000))
+
+def scalarRE : RE → Bool
+  | empty => true
+  | eps => true
+  | cls rs => scalarRanges rs
+  | seq a b => scalarRE a && scalarRE b
+  | alt a b => scalarRE a && scalarRE b
+  | star a => scalarRE a
+
+theorem inCls_scalar {rs : Ranges} {c : Nat} (hr : scalarRanges rs = true) (h : inCls rs c = true) : IsScalar c := by
+  induction rs with
+  | nil => simp [inCls] at h
+  | cons p rs ih =>
+    simp only [scalarRanges, List.all_cons, Bool.and_eq_true, Bool.or_eq_true, decide_eq_true_eq] at hr
+    simp only [inCls, Bool.or_eq_true, Bool.and_eq_true, Nat.ble_eq] at h
+    rcases h with ⟨h1, h2⟩ | h
+    · unfold IsScalar
+      rcases hr.1 with h3 | ⟨h3, h4⟩
+      · left; omega
+      · right; omega
+    · exact ih (by simpa [scalarRanges] using hr.2) h
+
+theorem utf8Encode_singleton (c : Nat) : utf8Encode [c] = utf8EncodeOne c := by simp [utf8Encode]
+
+theorem enc_complete_star {a : RE}
+    (ih : ∀ bs, Matches (encRE a) bs → ∃ w, Matches a w ∧ utf8Encode w = bs ∧ ∀ c ∈ w, IsScalar c)
+    {bs : List Nat} (h : Matches (star (encRE a)) bs) :
+    ∃ w, Matches (star a) w ∧ utf8Encode w = bs ∧ ∀ c ∈ w, IsScalar c := by
+  generalize hr : star (encRE a) = r at h
+  induction h with
+  | eps => cases hr
+  | cls _ => cases hr
+  | seq _ _ => cases hr
+  | altL _ => cases hr
+  | altR _ => cases hr
+  | starNil => exact ⟨[], .starNil, rfl, fun c hc => by cases hc⟩
+  | starCons h1 _ _ ih2 =>
+    cases hr
+    obtain ⟨w1, m1, e1, s1⟩ := ih _ h1
+    obtain ⟨w2, m2, e2, s2⟩ := ih2 rfl
+    refine ⟨w1 ++ w2, .starCons m1 m2, by rw [utf8Encode_append, e1, e2], ?_⟩
+    intro c hc
+    rcases List.mem_append.mp hc with h | h
+    · exact s1 c h
+    · exact s2 c h
+
+/-- **completeness of the transport** -/
+theorem enc_complete (r : RE) (hr : scalarRE r = true) : ∀ bs, Matches (encRE r) bs →
+    ∃ w, Matches r w ∧ utf8Encode w = bs ∧ ∀ c ∈ w, IsScalar c := by
+  induction r with
+  | empty => intro bs h; exact absurd h matches_empty
+  | eps =>
+    intro bs h
+    have := matches_eps.mp h
+    subst this
+    exact ⟨[], .eps, rfl, fun c hc => by cases hc⟩
+  | cls rs =>
+    intro bs h
+    simp only [scalarRE] at hr
+    simp only [encRE] at h
+    split at h
+    · rename_i hm
+      obtain ⟨c, rfl, hc⟩ := matches_cls.mp h
+      have hlt : c < 0x80 := by have := inCls_le_maxR hc; omega
+      refine ⟨[c], .cls hc, by simp [utf8Encode_singleton, utf8EncodeOne, hlt], ?_⟩
+      intro x hx; simp at hx; subst hx; exact inCls_scalar hr hc
+    · rcases matches_alt.mp h with h | h
+      · obtain ⟨c, rfl, hc⟩ := matches_cls.mp h
+        obtain ⟨hc1, hlt⟩ := clip_sound hc
+        refine ⟨[c], .cls hc1, by simp [utf8Encode_singleton, utf8EncodeOne, hlt], ?_⟩
+        intro x hx; simp at hx; subst hx; exact inCls_scalar hr hc1
+      · obtain ⟨v, hv, _, _, rfl⟩ := (encHi_sem rs bs).mp h
+        refine ⟨[v], .cls hv, utf8Encode_singleton v, ?_⟩
+        intro x hx; simp at hx; subst hx; exact inCls_scalar hr hv
+  | seq a b iha ihb =>
+    intro bs h
+    simp only [scalarRE, Bool.and_eq_true] at hr
+    obtain ⟨u, v, rfl, hu, hv⟩ := matches_seq.mp h
+    obtain ⟨w1, m1, e1, s1⟩ := iha hr.1 u hu
+    obtain ⟨w2, m2, e2, s2⟩ := ihb hr.2 v hv
+    refine ⟨w1 ++ w2, .seq m1 m2, by rw [utf8Encode_append, e1, e2], ?_⟩
+    intro c hc
+    rcases List.mem_append.mp hc with h | h
+    · exact s1 c h
+    · exact s2 c h
+  | alt a b iha ihb =>
+    intro bs h
+    simp only [scalarRE, Bool.and_eq_true] at hr
+    rcases matches_alt.mp h with h | h
+    · obtain ⟨w, m, e, s⟩ := iha hr.1 bs h
+      exact ⟨w, .altL m, e, s⟩
+    · obtain ⟨w, m, e, s⟩ := ihb hr.2 bs h
+      exact ⟨w, .altR m, e, s⟩
+  | star a ih =>
+    intro bs h
+    simp only [scalarRE] at hr
+    exact enc_complete_star (ih hr) h
+
+/-- the strict decoder reads back what `utf8Encode` writes for scalar values -/
+theorem utf8Decode_encode (w : List Nat) (hs : ∀ c ∈ w, IsScalar c) : utf8Decode? (utf8Encode w) = some w := by
+  induction w with
+  | nil => rfl
+  | cons c w ih =>
+    have hc := hs c List.mem_cons_self
+    have ihw := ih (fun x hx => hs x (List.mem_cons_of_mem _ hx))
+    rw [utf8Encode_cons]
+    unfold IsScalar at hc
+    unfold utf8EncodeOne
+    by_cases h1 : c < 0x80
+    · simp only [h1, if_true, List.singleton_append]
+      unfold utf8Decode?
+      simp only [h1, if_true, ihw, Option.map_some]
+    · by_cases h2 : c < 0x800
+      · simp only [h1, h2, if_true, if_false, List.cons_append, List.nil_append]
+        have a1 : ¬ (0xC0 + c / 64 < 0x80) := by omega
+        have a2 : (decide (0xC2 ≤ 0xC0 + c / 64) && decide (0xC0 + c / 64 ≤ 0xDF)) = true := by
+          simp only [Bool.and_eq_true, decide_eq_true_eq]; omega
+        have a3 : isCont (0x80 + c % 64) = true := by
+          simp only [isCont, Bool.and_eq_true, decide_eq_true_eq]; omega
+        have a4 : (0xC0 + c / 64 - 0xC0) * 64 + (0x80 + c % 64 - 0x80) = c := by omega
+        unfold utf8Decode?
+        simp only [a1, if_false, a2, if_true, a3, ihw, Option.map_some, a4]
+      · by_cases h3 : c < 0x10000
+        · simp only [h1, h2, h3, if_true, if_false, List.cons_append, List.nil_append]
+          have a1 : ¬ (0xE0 + c / 4096 < 0x80) := by omega
+          have a2 : (decide (0xC2 ≤ 0xE0 + c / 4096) && decide (0xE0 + c / 4096 ≤ 0xDF)) = false := by
+            simp only [Bool.and_eq_false_iff, decide_eq_false_iff_not]; omega
+          have a3 : (decide (0xE0 ≤ 0xE0 + c / 4096) && decide (0xE0 + c / 4096 ≤ 0xEF)) = true := by
+            simp only [Bool.and_eq_true, decide_eq_true_eq]; omega
+          have a4 : isCont (0x80 + c / 64 % 64) = true := by
+            simp only [isCont, Bool.and_eq_true, decide_eq_true_eq]; omega
+          have a5 : isCont (0x80 + c % 64) = true := by
+            simp only [isCont, Bool.and_eq_true, decide_eq_true_eq]; omega
+          have a6 : (0xE0 + c / 4096 - 0xE0) * 4096 + (0x80 + c / 64 % 64 - 0x80) * 64 + (0x80 + c % 64 - 0x80) = c := by
+            omega
+          have a7 : (decide (0x800 ≤ c) && !(decide (0xD800 ≤ c) && decide (c ≤ 0xDFFF))) = true := by
+            simp only [Bool.and_eq_true, decide_eq_true_eq, Bool.not_eq_true', Bool.and_eq_false_iff,
+              decide_eq_false_iff_not]
+            omega
+          unfold utf8Decode?
+          simp only [a1, if_false, a2, Bool.false_eq_true, a3, if_true, a4, a5, a6, Bool.true_and, a7,
+            ihw, Option.map_some]
+        · simp only [h1, h2, h3, if_false, List.cons_append, List.nil_append]
+          have a1 : ¬ (0xF0 + c / 262144 < 0x80) := by omega
+          have a2 : (decide (0xC2 ≤ 0xF0 + c / 262144) && decide (0xF0 + c / 262144 ≤ 0xDF)) = false := by
+            simp only [Bool.and_eq_false_iff, decide_eq_false_iff_not]; omega
+          have a3 : (decide (0xE0 ≤ 0xF0 + c / 262144) && decide (0xF0 + c / 262144 ≤ 0xEF)) = false := by
+            simp only [Bool.and_eq_false_iff, decide_eq_false_iff_not]; omega
+          have a3' : (decide (0xF0 ≤ 0xF0 + c / 262144) && decide (0xF0 + c / 262144 ≤ 0xF4)) = true := by
+            simp only [Bool.and_eq_true, decide_eq_true_eq]; omega
+          have a4 : isCont (0x80 + c / 4096 % 64) = true := by
+            simp only [isCont, Bool.and_eq_true, decide_eq_true_eq]; omega
+          have a5 : isCont (0x80 + c / 64 % 64) = true := by
+            simp only [isCont, Bool.and_eq_true, decide_eq_true_eq]; omega
+          have a5' : isCont (0x80 + c % 64) = true := by
+            simp only [isCont, Bool.and_eq_true, decide_eq_true_eq]; omega
+          have a6 : (0xF0 + c / 262144 - 0xF0) * 262144 + (0x80 + c / 4096 % 64 - 0x80) * 4096 +
+              (0x80 + c / 64 % 64 - 0x80) * 64 + (0x80 + c % 64 - 0x80) = c := by omega
+          have a7 : (decide (0x10000 ≤ c) && decide (c ≤ 0x10FFFF)) = true := by
+            simp only [Bool.and_eq_true, decide_eq_true_eq]; omega
+          unfold utf8Decode?
+          simp only [a1, if_false, a2, Bool.false_eq_true, a3, a3', if_true, a4, a5, a5', a6,
+            Bool.true_and, a7, ihw, Option.map_some]
 
 /-! ## the octet-level IRI grammar -/
 
@@ -239,5 +380,50 @@ theorem iri_octets_valid_full (bytes w : List Nat) (hd : utf8Decode? bytes = som
   have := matches_enc hm (fun c hc => by have := hsc c hc; unfold IsScalar at this; omega)
   rw [utf8Encode_decode bytes w hd] at this
   rw [iriGB, encG_full]; exact this
+
+/-! ## exactness -/
+
+/-- **the transported expression matches exactly the UTF-8 encodings of the words of `r`** -/
+theorem enc_exact (r : RE) (hr : scalarRE r = true) (bytes : List Nat) :
+    Matches (encRE r) bytes ↔ ∃ w, utf8Decode? bytes = some w ∧ Matches r w := by
+  constructor
+  · intro h
+    obtain ⟨w, hm, he, hs⟩ := enc_complete r hr bytes h
+    exact ⟨w, by rw [← he]; exact utf8Decode_encode w hs, hm⟩
+  · rintro ⟨w, hd, hm⟩
+    have hsc := utf8Decode_scalars bytes w hd
+    have := matches_enc hm (fun c hc => by have := hsc c hc; unfold IsScalar at this; omega)
+    rwa [utf8Encode_decode bytes w hd] at this
+
+/-- **`iriGB` is exactly the valid IRI references as octets**: well-formed UTF-8 whose scalar
+values form a word of RFC 3987 `IRI-reference` -/
+theorem iri_octets_exact (bytes : List Nat) :
+    Matches iriGB.reference bytes ↔ ∃ w, utf8Decode? bytes = some w ∧ Matches iriG.reference w := by
+  rw [iriGB, encG_reference]
+  exact enc_exact _ (by decide) bytes
+
+theorem iri_octets_exact_full (bytes : List Nat) :
+    Matches iriGB.full bytes ↔ ∃ w, utf8Decode? bytes = some w ∧ Matches iriG.full w := by
+  rw [iriGB, encG_full]
+  exact enc_exact _ (by decide) bytes
+
+/-- the octets of an encoded word are octets -/
+theorem utf8Encode_bytes (w : List Nat) (hs : ∀ c ∈ w, c < 0x110000) : ∀ b ∈ utf8Encode w, b < 256 := by
+  induction w with
+  | nil => intro b hb; cases hb
+  | cons c w ih =>
+    intro b hb
+    rw [utf8Encode_cons] at hb
+    rcases List.mem_append.mp hb with h | h
+    · have hc := hs c List.mem_cons_self
+      unfold utf8EncodeOne at h
+      split at h
+      · simp at h; omega
+      · split at h
+        · simp at h; rcases h with rfl | rfl <;> omega
+        · split at h
+          · simp at h; rcases h with rfl | rfl | rfl <;> omega
+          · simp at h; rcases h with rfl | rfl | rfl | rfl <;> omega
+    · exact ih (fun x hx => hs x (List.mem_cons_of_mem _ hx)) b h
 
 end IrefVerif.Lemmas
